@@ -18,7 +18,7 @@ def run(item):
     return name, ok, viols, p.returncode
 items = [(k, v) for k, v in sorted(exp.items()) if flt in k]
 bad = 0
-with concurrent.futures.ThreadPoolExecutor(max_workers=2) as ex:
+with concurrent.futures.ThreadPoolExecutor(max_workers=int(os.environ.get("SELFTEST_WORKERS", "2"))) as ex:
     for name, ok, viols, rc in ex.map(run, items):
         print(('KILLED  ' if ok else 'SURVIVED'), name, '->', viols[:3] if viols else 'exit %d, no violation' % rc)
         bad += 0 if ok else 1
